@@ -344,6 +344,19 @@ def rule_R6(src):
             comps = _split_zip(expr)
             first = comps[0]
             simple_path = re.fullmatch(r'[A-Za-z_][A-Za-z0-9_]*(?:\.[A-Za-z_0-9]+)*', first) is not None
+            call_src = len(comps) == 1 and re.fullmatch(r'[A-Za-z_][A-Za-z0-9_]*(?:\.[A-Za-z_0-9]+)*\.(squeeze|as_slice|as_ref)\(\)', first) is not None
+            if call_src:
+                # the iterated expression is evaluated once: bind it, then index it
+                tmp = 'vx_s%d' % ordinal
+                pats = _unnest(pat if not enum else _split_top(pat[1:-1])[1], 1)
+                if enum:
+                    idx = _split_top(pat[1:-1])[0].strip()
+                new = 'let %s = %s; for %s in 0..%s.len()' % (tmp, first, idx, tmp)
+                binds = ''.join(_bind_pattern(p_, tmp, idx) for p_ in pats)
+                src = src[:kw] + _pad(new, header) + '{' + binds + src[brace + 1:]
+                n += 1
+                changed = True
+                break
             if not (first.startswith('&') or first.endswith('.iter()') or simple_path):
                 if len(comps) == 1 and not enum:
                     continue   # not a recognised collection loop (e.g. a range held in a variable)
@@ -649,6 +662,8 @@ def extract_item(kv):
     text = rl.strip_comments(text)
     text = re.sub(r'#\[[^\]]*\]\s*', '', text)   # field/serde attributes
     text = re.sub(r'\bpub\((?:crate|super)\)', 'pub', text)   # visibility is irrelevant in the single-file crate
+    if kind in ('const', 'static') and not text.lstrip().startswith('pub') and not kv.get('_ensures'):
+        text = 'pub ' + text.lstrip()
     if kind == 'struct' and '{' in text:
         head, _, rest = text.partition('{')
         rest = re.sub(r'(?m)^(\s*)(?!pub\b)([a-z_][A-Za-z0-9_]*\s*:)', r'\1pub \2', rest)
@@ -776,9 +791,55 @@ def splice(u, ex, probe=False, mutant=None):
             if anchor == '@start':
                 inserts.append((0, '\n' + '\n'.join(lines) + '\n', 'ghost'))
             else:
-                stripped = body.rstrip()
-                ls = stripped.rfind('\n') + 1
-                inserts.append((ls, '\n'.join(lines) + '\n', 'ghost'))
+                # start of the tail expression: after the last top-level `;` or `}` that ends a statement
+                depth, last = 0, 0
+                k = 0
+                stripped_len = len(body.rstrip())
+                while k < stripped_len:
+                    if mask[k]:
+                        c = body[k]
+                        if c in '([{':
+                            depth += 1
+                        elif c in ')]}':
+                            depth -= 1
+                        elif c == ';' and depth == 0:
+                            last = k + 1
+                    k += 1
+                if not body[last:stripped_len].strip():
+                    inserts.append((stripped_len, '\n' + '\n'.join(lines) + '\n', 'ghost'))
+                else:
+                    # first non-blank char of the tail expression; a preceding block statement (if/for without `;`) is part of
+                    # the scanned region, so step to the last line start at depth 0 that begins the final expression
+                    tail_start = last + (len(body[last:]) - len(body[last:].lstrip()))
+                    # skip over complete block statements (`for .. {}`, `if .. {}`) that precede the tail expression
+                    pos_ = tail_start
+                    while True:
+                        mkw = re.match(r'(for|while|loop|if|match|let)\b', body[pos_:])
+                        if not mkw:
+                            break
+                        # find end of this block statement
+                        d2, q = 0, pos_
+                        endq = None
+                        while q < stripped_len:
+                            if mask[q]:
+                                ch = body[q]
+                                if ch in '([{':
+                                    d2 += 1
+                                elif ch in ')]}':
+                                    d2 -= 1
+                                    if d2 == 0 and ch == '}':
+                                        rest = body[q + 1:stripped_len]
+                                        if re.match(r'\s*else\b', rest):
+                                            pass
+                                        else:
+                                            endq = q + 1
+                                            break
+                            q += 1
+                        if endq is None or not body[endq:stripped_len].strip():
+                            break
+                        pos_ = endq + (len(body[endq:]) - len(body[endq:].lstrip()))
+                    ls = body.rfind('\n', 0, pos_) + 1
+                    inserts.append((ls, '\n'.join(lines) + '\n', 'ghost'))
             continue
         hits = [m for m in rl.find_code(body, _anchor_rx(anchor), mask=mask)]
         if nth is None and len(hits) != 1:
